@@ -266,9 +266,8 @@ func (cfg *Config) paramExp(pe *syntax.ParamExp) (string, error) {
 			case "Q":
 				str, err = syntax.Quote(str, syntax.LangBash)
 				if err != nil {
-					// Is this even possible? If a user runs into this panic,
-					// it's most likely a bug we need to fix.
-					panic(err)
+					// e.g. a null byte which came from "read"
+					return "", err
 				}
 			case "E":
 				tail := str
@@ -310,7 +309,8 @@ func (cfg *Config) paramExp(pe *syntax.ParamExp) (string, error) {
 			case "K", "k":
 				// TODO: implement, like @A but listing keys for assoc arrays.
 			default:
-				panic(fmt.Sprintf("unexpected @%s param expansion", arg))
+				// e.g. mksh's ${foo@#}, or an operator followed by an expansion like ${foo@Q$bar}
+				return "", fmt.Errorf("unsupported @%s param expansion", arg)
 			}
 		}
 	}
